@@ -7,6 +7,7 @@ toolchain go1.23.5
 require (
 	github.com/milvus-io/milvus-proto/go-api/v2 v2.5.0-beta.0.20250214033407-ad08272e542b
 	github.com/milvus-io/milvus/pkg v0.0.2-0.20250217075414-a4dbbc2e52c1
+	github.com/sasha-s/go-deadlock v0.3.2-0.20240530143741-ed6f7f6d979c
 	github.com/stretchr/testify v1.9.0
 	github.com/zilliztech/milvus-cdc/core v0.0.1
 	github.com/zilliztech/milvus-cdc/server v0.0.0
@@ -91,7 +92,6 @@ require (
 	github.com/prometheus/procfs v0.12.0 // indirect
 	github.com/rogpeppe/go-internal v1.10.0 // indirect
 	github.com/samber/lo v1.27.0 // indirect
-	github.com/sasha-s/go-deadlock v0.3.2-0.20240530143741-ed6f7f6d979c // indirect
 	github.com/shirou/gopsutil/v3 v3.23.12 // indirect
 	github.com/sirupsen/logrus v1.9.3 // indirect
 	github.com/soheilhy/cmux v0.1.5 // indirect
